@@ -159,6 +159,9 @@ META = (META[0] + ' PREVBOUND (a loop that stops at `!= prev(last)` knows the ra
 META = (META[0] + ' PREFIXWIN (a search of the already visited prefix inside a loop starts where the loop started).', META[1])
 
 
+META = (META[0] + ' MEMSHORT (a bytewise memcmp / memcpy / memmove over elements is guarded by the trait that makes bytes and values agree; controls in fixtures/extra10_pos.hpp).', META[1])
+
+
 def run(chk, tier):
     db = D.load("checks")
     from ..rules import params as _PR
@@ -173,6 +176,10 @@ def run(chk, tier):
     from ..rules import extra8 as _X8
     _X8.dist_guard_area(chk, db, ['_algorithm/', '_numeric/'])      # DISTGUARD
     _X8.positive_controls(chk, D, ('DISTGUARD', 'STALEREP', 'PREVBOUND'))
+    from ..rules import extra10 as _X10
+    if _X10.mem_shortcut_area(chk, db, ['_algorithm/', '_numeric/']) < 100:      # MEMSHORT (zero calls expected on the library)
+        chk.analysis_broken('MEMSHORT: fewer than 100 function bodies scanned (floor 100)')
+    _X10.positive_controls(chk, D, ('MEMSHORT',))
     from ..rules import extra9 as _X9
     if _X9.prefix_window_area(chk, db, ['_algorithm/', '_numeric/']) < 1:      # PREFIXWIN
         chk.unknown_instance('PREFIXWIN', 'etl::is_permutation', 'no search of the visited prefix inside a loop found')
